@@ -61,6 +61,7 @@ def run_history(w, hist: str, shared: bool, api: str, advancing: bool, real_entr
     cache_u = all_roots()  # unprotect needs the root key of whichever blob came last (public-key blobs cannot be opened by the unauthorised caller)
     out: t.List[t.Tuple[str, str, t.Any]] = []
     last_blob: t.Optional[bytes] = None
+    kept: t.List[t.Any] = []
     ent = seams.Entropy(b"C19", collide=(real_entropy == "collide"))
 
     def go():
@@ -98,6 +99,17 @@ def run_history(w, hist: str, shared: bool, api: str, advancing: bool, real_entr
                         last_blob = bytes(vh)
                         out.append((op, "ok", bytes(vh)))
                         continue
+                    if op == "K":
+                        # the application parses the latest blob (to look at its key identifier) and keeps the parsed object
+                        if last_blob is not None:
+                            from dpapi_ng._blob import DPAPINGBlob
+
+                            kept.append(DPAPINGBlob.unpack(last_blob))
+                        out.append((op, "skip", None))
+                        continue
+                    if op in "NM" and last_blob is None:
+                        out.append((op, "skip", None))
+                        continue
                     if op == "U":
                         if last_blob is None:
                             out.append((op, "skip", None))
@@ -105,6 +117,11 @@ def run_history(w, hist: str, shared: bool, api: str, advancing: bool, real_entr
                         f = (dpapi_ng.ncrypt_unprotect_secret, dpapi_ng.async_ncrypt_unprotect_secret)[api == "async"]
                         args: t.Tuple[t.Any, ...] = (last_blob,)
                         kw["cache"] = cache_u
+                    elif op in "NM":
+                        # a stored secret is refreshed: the latest blob itself (N) / the latest blob plus a suffix (M) is protected again, same SID and key
+                        f = (dpapi_ng.ncrypt_protect_secret, dpapi_ng.async_ncrypt_protect_secret)[api == "async"]
+                        args = (last_blob if op == "N" else last_blob + b"+suffix", SID1)
+                        kw["root_key_identifier"] = w["rkN"].rkid
                     else:
                         f = (dpapi_ng.ncrypt_protect_secret, dpapi_ng.async_ncrypt_protect_secret)[api == "async"]
                         pt, sid, rk = {"A": (P1, SID1, "rkN"), "B": (P2, SID1, "rkN"), "C": (P1, SID2, "rkN"), "D": (P1, SID1, "rkD"), "E": (P1, SID1, "rkE"), "F": (P1, SID1, "rkS"), "G": (P1, SID1, "rkG")}[op]
@@ -286,7 +303,7 @@ def threads_explore(acc, w, ops: str, bound: int, part: int, parts: int, coarse:
 
 
 def shards(tier: str, seed: int):
-    out = [["long", api] for api in ("sync", "async")] + [["collide", api] for api in ("sync", "async")] + [["conc"]] + [["extra", api] for api in ("sync", "async")]
+    out = [["long", api] for api in ("sync", "async")] + [["collide", api] for api in ("sync", "async")] + [["nested", api] for api in ("sync", "async")] + [["conc"]] + [["extra", api] for api in ("sync", "async")]
     for ops in (THREAD_PAIRS[:2] if tier == "quick" else THREAD_PAIRS):
         for part in range(THREAD_PARTS):
             out.append(["threads", ops, 1, part, THREAD_PARTS, False])
@@ -339,6 +356,23 @@ def run_shard(shard, tier, seed, acc) -> None:
                     acc.states += 1
                     acc.transitions += len(hist)
         acc.sample({"extra alphabet": {"A": "protect(P1,SID1)", "G": "public-key mode, DH root key with a 509-bit private key", "R": "random.seed(constant)"}, "histories": n})
+        return
+    if shard[0] == "nested":
+        # histories over {A, N (the latest blob protected again), M (latest blob + suffix protected again), K (the application keeps the parsed
+        # latest blob alive), U}
+        n = 0
+        for k in range(2, 4 if tier == "quick" else 5):
+            for h in itertools.product("ANMKU", repeat=k):
+                hist = "".join(h)
+                if sum(c in "ANM" for c in hist) < 2 or hist[0] != "A":
+                    continue
+                for real in (False, True):
+                    judge(acc, w, hist, True, shard[1], False, real, ["shard", shard, tier])
+                    n += 1
+                    acc.ev()
+                    acc.states += 1
+                    acc.transitions += len(hist)
+        acc.sample({"alphabet": {"A": "protect(P1,SID1)", "N": "protect(latest blob, SID1)", "M": "protect(latest blob + suffix, SID1)", "K": "keep DPAPINGBlob.unpack(latest blob) alive", "U": "unprotect(latest)"}, "histories": n})
         return
     if shard[0] == "collide":
         # entropy that never repeats a block but whose blocks agree under cheap digests (Adler-32, CRC-32, octet multiset, shared prefixes
